@@ -32,7 +32,7 @@ if __name__ == "__main__":
             pat = "/" + random_regex(rng) + "/"
         else:
             pat = '("' + rng.choice(["ab", "a", "abc"]) + '" /' + rng.choice(["b+c", "[ab]x", "a?b"]) + "/)"
-        shape = rng.randrange(5)
+        shape = rng.randrange(7)
         if shape == 0:
             body = f"wait {pat};"
         elif shape == 1:
@@ -41,8 +41,15 @@ if __name__ == "__main__":
             body = f'try {{ wait {pat}; "q"; }} catch {{ h0(); "r"; }} h1();'
         elif shape == 3:
             body = f'"s"; try {{ "t"; }} catch (nomatch) {{ wait {pat}; h0(); }} "u";'
-        else:
+        elif shape == 4:
             body = f'loop {{ wait {pat}; h0(); case {{ "!" -> {{ break; }} "." -> {{ }} }} }}'
+        elif shape == 5:
+            # a wait right after a statement ended by look-ahead on a negated class (its exclusions must not leak into the wait)
+            pre = rng.choice(["/[^xy]+/", "/[^ab]*/", "/a[^b]*/", "/\\D+/"])
+            body = f'try {{ "<"; {pre}; wait {pat}; h1(); }} catch {{ h0(); "r"; }}'
+        else:
+            pre = rng.choice(["/[^xy]+/", "/[^ab]*/", "/\\W*/"])
+            body = f'{pre}; wait {pat}; ";";'
         src = "hook h0;\nhook h1;\nparser {\n  " + body + "\n}\n"
         progs.append({"name": f"wait-{i}", "src": src, "args": ["-feof-support"], "feats": {}, "also_O3": i % 3 == 0})
     refcheck.run("C16", THEOREMS, "NmfuProps.C16", progs,
